@@ -560,6 +560,12 @@ class MarkovNetwork(UndirectedGraph):
         # distinct factors with equal values are each used exactly once.
         is_used = [False] * len(self.factors)
 
+        # State names of all the variables, so that the clique potentials carry
+        # the same state names as the factors of the model.
+        state_names = {}
+        for factor in self.factors:
+            state_names.update(factor.state_names)
+
         for node in clique_trees.nodes():
             clique_factors = []
             for index, factor in enumerate(self.factors):
@@ -573,7 +579,12 @@ class MarkovNetwork(UndirectedGraph):
             # To compute clique potential, initially set it as unity factor
             var_card = [self.get_cardinality()[x] for x in node]
             clique_potential = DiscreteFactor(
-                node, var_card, np.ones(np.prod(var_card))
+                node,
+                var_card,
+                np.ones(np.prod(var_card)),
+                state_names={
+                    var: state_names[var] for var in node if var in state_names
+                },
             )
             # multiply it with the factors associated with the variables present
             # in the clique (or node)
